@@ -641,15 +641,35 @@ class _P:
 
 
 def _doc_order(root):
+    """document order numbers for elements (key id(el)) and text nodes
+    (keys ("text", id(el)) / ("tail", id(el)))"""
     order = {}
-    i = 0
-    stack = [root]
-    while stack:
-        n = stack.pop()
-        order[id(n)] = i
-        i += 1
-        stack.extend(reversed(n._children))
+    counter = [0]
+
+    def visit(n):
+        order[id(n)] = counter[0]
+        counter[0] += 1
+        order[("text", id(n))] = counter[0]
+        counter[0] += 1
+        for c in n._children:
+            visit(c)
+            order[("tail", id(c))] = counter[0]
+            counter[0] += 1
+
+    visit(root)
     return order
+
+
+def _order_key(n, order):
+    if isinstance(n, _Element):
+        return order.get(id(n))
+    if isinstance(n, str) and hasattr(n, "getparent"):
+        p = n.getparent()
+        if getattr(n, "is_attribute", False):
+            k = order.get(id(p))
+            return None if k is None else k + 0.5
+        return order.get(("text" if n.is_text else "tail", id(p)))
+    return None
 
 
 class XPath:
@@ -681,22 +701,31 @@ class XPath:
         return val
 
     def _sorted(self, nodes, ctx):
-        els = [n for n in nodes if isinstance(n, _Element)]
-        if len(els) != len(nodes) or len(els) < 2:
+        """node-sets are returned in document order, without duplicates"""
+        if len(nodes) < 2:
             return nodes
         root = ctx
+        if isinstance(root, str):
+            root = root.getparent()
         while root._parent is not None:
             root = root._parent
+        if isinstance(root, _DocNode):
+            root = root.root
         order = _doc_order(root)
         seen = set()
         uniq = []
-        for n in els:
-            if id(n) not in seen:
-                seen.add(id(n))
-                uniq.append(n)
-        if any(id(n) not in order for n in uniq):
-            return uniq
-        return sorted(uniq, key=lambda n: order[id(n)])
+        for n in nodes:
+            if isinstance(n, _DocNode):
+                return nodes
+            k = _order_key(n, order)
+            if k is None:
+                return nodes  # nodes from another tree / plain values: leave as computed
+            if k in seen:
+                continue
+            seen.add(k)
+            uniq.append((k, n))
+        uniq.sort(key=lambda kn: kn[0])
+        return [n for _, n in uniq]
 
     def _eval(self, node, ctx, pos, size, var):
         kind = node[0]
